@@ -177,8 +177,8 @@ def main(tier, seed):
             for ai in choices:
                 owner, aname, atype, optional, where = attr_infos[ai]
                 ent0 = inst["parts"][0][0]
-                if (ent0, aname) in popgen.DERIVED_IN:
-                    continue
+                if (ent0, aname) in popgen.DERIVED_IN or any((kw_, aname) in popgen.DERIVED_IN for kw_, _ in inst["parts"]):
+                    continue      # derived (by the entity itself or by another part of the complex instance): no value to be missing
                 a, b = spans[ai]
                 if inst["toks"][a:b] == ["$"]:
                     continue
